@@ -185,6 +185,19 @@ func (s *Server) ListenTCP(addr string) (string, error) {
 	return ln.Addr().String(), nil
 }
 
+// StopListening closes the listener, so that new dials are refused by the
+// kernel; connections already accepted stay open.  ListenTCP/ListenUnix on the
+// same address starts accepting again.
+func (s *Server) StopListening() {
+	s.mu.Lock()
+	ln := s.ln
+	s.ln = nil
+	s.mu.Unlock()
+	if ln != nil {
+		ln.Close()
+	}
+}
+
 // Refuse makes the accept loop close new connections immediately.
 func (s *Server) Refuse(on bool) {
 	s.mu.Lock()
